@@ -85,6 +85,8 @@ type dbCase struct {
 	Keys     []string    `json:"keys"`
 	Sessions []dbSession `json:"sessions"`
 	Recovery dbOpts      `json:"recovery"`
+	// delete directory entries inside RemoveAll in a tape-chosen order (crash harness)
+	PermuteUnlink bool `json:"permute_unlink,omitempty"`
 }
 
 var keyPool = []string{"a", "ab", "abc", "b", "key-with-a-long-name-0123456789", "k\x00bin\xff", "zz", "m"}
